@@ -255,6 +255,8 @@ func c19Exec(c c19Case, x *pbt.Ctx) error {
 		n.Stop()
 	}
 	x.Class("inner-crash-points-%d+", (inner/20)*20)
+	x.Count("crash_points_executed", len(ks))
+	x.Count("crash_points_between_commits_of_one_event", inner)
 	x.NonTrivial = inner > 0
 	x.Sample = map[string]interface{}{"blocks": len(c.Tree.Blocks), "events": len(c.Events), "writes": total - base, "crash_points": len(ks), "between_commits_of_one_event": inner}
 	return nil
